@@ -120,6 +120,30 @@ def run(ctx):
         ws = phrase_words(rbytes(rng, n))[:-1]
         for i, w in enumerate(wl):
             cases.append((" ".join(ws + [w]), "final-word/%d" % k, "must", i % (16 if not thorough else 2) == 0))
+    # (c2) final words that are textually related: a phrase whose correct final word W contains another list word S as a proper
+    # suffix / prefix (affair/air, apart/art, alarm/arm, abstract/act, action/act, ...), with S in W's place and the reverse —
+    # words are compared whole, never by suffix, prefix or containment (the oracle decides; nearly always a checksum mismatch)
+    related = [(w, s_) for w in wl for s_ in wl if s_ != w and len(s_) >= 3 and (w.endswith(s_) or w.startswith(s_))]
+    rng.shuffle(related)
+    made = 0
+    for w, s_ in related:
+        if made >= (40 if not thorough else 400):
+            break
+        k = rng.choice(list(LENS))
+        n = LENS[k]
+        cs = k * 11 - n * 8
+        for final, other in ((w, s_), (s_, w)):
+            # entropy whose last word is `final`: its index's top 11-cs bits are the last entropy bits; the checksum must then fit
+            for _ in range(400):
+                e = bytearray(rbytes(rng, n))
+                top = widx[final] >> cs
+                v = int.from_bytes(e, "big")
+                v = (v >> (11 - cs) << (11 - cs)) | top
+                ws = phrase_words(v.to_bytes(n, "big"))
+                if ws[-1] == final:
+                    cases.append((" ".join(ws[:-1] + [other]), "final-word/related-spelling", "must", True))
+                    made += 1
+                    break
     # (d) every word in every non-final position
     for k, n in LENS.items():
         for o in range(2048):
